@@ -391,8 +391,9 @@ Section ESRP.
       + split.
         * intros Hd. exfalso. symmetry in G3. apply negb_true_iff, Nat.eqb_neq in G3.
           rewrite Hd in G2. apply (f_equal (@length N)) in G2. rewrite app_length in G2. cbn in G2. lia.
-        * intros _. exists e, off. split; [exact Ed|]. split; [reflexivity|].
-          rewrite W2. unfold unread at 1. cbn [e_is]. fold (unread s1). rewrite G2 at 2.
+        * intros _. exists e, off. split; [reflexivity|]. split; [reflexivity|].
+          rewrite W2. unfold unread at 1. cbn [e_is]. fold (unread s1).
+          transitivity (skipn off (got ++ unread s1)); [|rewrite <- G2; reflexivity].
           rewrite skipn_app. rewrite G1. f_equal.
           replace (off - length got) with 0 by (rewrite Egot; lia). reflexivity.
     - (* nothing could be read: the stream is empty *)
